@@ -92,6 +92,16 @@ def run(res, tier, seed, replay):
         for _ in range(3000 if quick else 60000):
             seqs.append(K.gen_nested_items(rng, budget=rng.randint(4, 16 if quick else 40)))
     docs = [K.render_items(s) for s in seqs]
+    # the same sequences with the body of a directive written INSIDE the parentheses it opens (`200` / `(` / `{}` / `)`):
+    # the same items, so the same forest and the same verdict by the rule
+    if not replay:
+        extra = [(s, K.render_items(s, body_inside=True)) for s in seqs]
+        extra = [(s, d) for (s, d), d0 in zip(extra, docs) if d != d0]
+        seqs = seqs + [s for s, _ in extra]
+        docs = docs + [d for _, d in extra]
+        res.notes["body_inside_parentheses_variants"] = len(extra)
+    elif json.load(open(replay)).get("doc"):
+        docs = [C.unhx(json.load(open(replay))["doc"])]
     n_bad = 0
     scan_shapes = {}
     for stage in ("scan", "expand"):
@@ -101,47 +111,48 @@ def run(res, tier, seed, replay):
         res.coverage["traces_validated_against_impl"] += len(docs)
         spec_bad = []
         dist = {"ok": 0, "err": 0}
-        for s, a in zip(seqs, ni):
+        for k_, (s, a) in enumerate(zip(seqs, ni)):
             dist[a[0]] = dist.get(a[0], 0) + 1
             if a[0] == "ok":
                 try:
                     forest = parse_tree(a[1])
                 except Exception as e:  # noqa
-                    spec_bad.append((s, "unparsable tree: %s" % e))
+                    spec_bad.append((k_, s, "unparsable tree: %s" % e))
                     continue
                 deep = any(k2 for (_, _, k1) in forest for (_, _, k2) in k1)
                 if deep:
                     res.nontrivial(("ok", stage, tuple(map(str, s))))
                 eb = edges_ok(forest) if stage == "scan" else []
                 if eb:
-                    spec_bad.append((s, eb[0]))
+                    spec_bad.append((k_, s, eb[0]))
                 full = K.parse_forest(a[1])
                 if stage == "scan":
                     # the property, clause by clause, from an independent resolver
                     sp = K.spec_resolve(s)
                     if sp[0] != "ok":
-                        spec_bad.append((s, "accepted, but the context rule rejects it (%s)" % sp[1]))
+                        spec_bad.append((k_, s, "accepted, but the context rule rejects it (%s)" % sp[1]))
                     elif K.forest_parents(full) != sp[1]:
-                        spec_bad.append((s, "a directive is not under the nearest admitting parent: parents %r, the rule gives %r" % (K.forest_parents(full), sp[1])))
-                    scan_shapes[tuple(map(str, s))] = K.shape(full, [("a.jst", K.render_items(s))])
+                        spec_bad.append((k_, s, "a directive is not under the nearest admitting parent: parents %r, the rule gives %r" % (K.forest_parents(full), sp[1])))
+                    scan_shapes[k_] = K.shape(full, [("a.jst", docs[k_])])
                 elif 21 not in s and 22 not in s:
                     # no MACRO / PASTE: the second resolution must reproduce the first
-                    if scan_shapes.get(tuple(map(str, s))) != K.shape(full, [("a.jst", K.render_items(s))]):
-                        spec_bad.append((s, "the forest after the expansion stage differs from the scanned forest although the document has no macro"))
+                    if scan_shapes.get(k_) != K.shape(full, [("a.jst", docs[k_])]):
+                        spec_bad.append((k_, s, "the forest after the expansion stage differs from the scanned forest although the document has no macro"))
             elif a[0] == "err" and a[-1] in ("incorrectcontext", "incorrectcontextpath", "noexplicit", "notallclosed"):
                 res.nontrivial(("err", stage, tuple(map(str, s))))
                 if stage == "scan":
                     sp = K.spec_resolve(s)
                     if sp[0] == "ok":
-                        spec_bad.append((s, "rejected for %s, but every directive has a place and the parentheses balance" % a[-1]))
+                        spec_bad.append((k_, s, "rejected for %s, but every directive has a place and the parentheses balance" % a[-1]))
             elif a[0] not in ("ok", "err"):
-                spec_bad.append((s, "implementation outcome %s" % a[0]))
+                spec_bad.append((k_, s, "implementation outcome %s" % a[0]))
         res.notes["input_distribution_" + stage] = {"sequences": len(seqs), "verdicts": dist,
                                                     "max_len": max(len(s) for s in seqs)}
-        for s, why in spec_bad[:3]:
+        for kx, s, why in spec_bad[:3]:
             n_bad += 1
+            dd = docs[kx]
             res.violation("context resolution (%s stage): %s on items %r" % (stage, why, s),
-                          {"items": s, "doc": C.hx(K.render_items(s)), "stage": stage})
+                          {"items": s, "doc": C.hx(dd), "stage": stage})
         if spec_bad:
             continue
         if mism:
